@@ -20,7 +20,9 @@
 (* resolver gate (authority(): exact verdict AND the stricter RFC 8198     *)
 (* classifier agree, no Opt-Out) followed by ResponseWriter.WriteMsg ->    *)
 (* RecordDenialProof / RecordNXDomainCut; Expire advances the clock;       *)
-(* Synthesise is Store.GetWithContext (cut first, then the proof index).   *)
+(* Synthesise is Store.GetWithContext (cut first, then the proof index);    *)
+(* Forge is a replayed-records claim the zone does not support (the model   *)
+(* gate refuses it; the driver pushes it through the real gate).            *)
 (* SynthesisedIsTrue: whatever is synthesised equals Truth.                *)
 (*                                                                         *)
 (* Names are label sequences written TOP-DOWN from the zone apex:          *)
@@ -40,6 +42,8 @@ CONSTANTS
   Collide,    \* <<>> or <<x, y>> : hash of name x is forced onto that of y
   Part,       \* "sound" | "cache"
   MaxClock, MaxAdmits, AdmitSub, MinimalProofs,
+  WithForge,  \* TRUE: behaviours also contain forged claims (simulation configs)
+  ForgeTypes, \* question types of forged claims (bounds the successor fan-out of -simulate)
   EmitCases   \* TRUE: print zones / cases as JSON for the conformance driver
 
 VARIABLES zid, fam, phase, sub, q, vs, ag,         \* part 1 (vs/ag: what the rules conclude for sub, q)
@@ -104,7 +108,7 @@ ZoneLib ==
     dname   |-> [optout |-> FALSE, rr |-> (<<>> :> Apex @@ <<"a">> :> {"DNAME"} @@ <<"b">> :> {"A"}
                                            @@ <<"b", "*">> :> {"A"})],
     entwild |-> [optout |-> FALSE, rr |-> (<<>> :> Apex @@ <<"a", "*">> :> {"A"} @@ <<"b">> :> {"NS", "DS"})],
-    optout  |-> [optout |-> TRUE,  rr |-> (<<>> :> Apex @@ <<"a", "b">> :> {"NS"} @@ <<"b">> :> {"A"}
+    optout  |-> [optout |-> TRUE,  rr |-> (<<>> :> Apex @@ <<"*">> :> {"A"} @@ <<"a", "b">> :> {"NS"} @@ <<"b">> :> {"A"}
                                            @@ <<"b", "a">> :> {"NS", "DS"} @@ <<"b", "b">> :> {"NS"})],
     \* depth 3
     deep    |-> [optout |-> FALSE, rr |-> (<<>> :> Apex @@ <<"a", "a", "a">> :> {"A"} @@ <<"a", "b">> :> {"A"}
@@ -371,24 +375,37 @@ AdmitTab ==
   IF Part # "cache" THEN <<>>
   ELSE [z \in Zones |-> [f \in Families |->
          LET cand == (SubsetsUpTo(Genuine(z, f), AdmitSub) \ {{}}) \X Queries
-             all  == { <<c[1], c[2], v>> : c \in cand, v \in NegV }
-             ok   == { t \in all : t[3] \in GateAdmits(f, t[1], t[2]) }
+             ok   == UNION { { <<c[1], c[2], v>> : v \in GateAdmits(f, c[1], c[2]) } : c \in cand }
          IN  IF MinimalProofs
              THEN { t \in ok : ~\E u \in ok : u[2] = t[2] /\ u[3] = t[3] /\ u[1] # t[1] /\ u[1] \subseteq t[1] }
              ELSE ok ]]
+
+\* forged claims <<G, question, rcode>> the zone does not support
+ForgeTab ==
+  IF Part # "cache" \/ ~WithForge THEN <<>>
+  ELSE [z \in Zones |-> [f \in Families |->
+         { <<c[1], c[2], rc>> : c \in { d \in (SubsetsUpTo(Genuine(z, f), 2) \ {{}}) \X Queries :
+                                                d[2].type \in ForgeTypes },
+                                rc \in {"NX", "ND"} }
+         \ UNION { { <<c[1], c[2], Rcode(v)>> : v \in GateAdmits(f, c[1], c[2]) } :
+                      c \in (SubsetsUpTo(Genuine(z, f), 2) \ {{}}) \X Queries } ]]
 
 SynthOf(i, sx, cs, c, qq) ==
   IF \E n \in { m \in DOMAIN cs : cs[m] > c } : IsPrefix(n, qq.name) THEN {"nxdomain"}
   ELSE IF sx > c THEN AggVerdicts(fam, Live(i, c), qq)
   ELSE {}
 
-TurnSet == {"admit", "expire", "synth"}
+TurnSet == {"admit", "expire", "synth", "forge"}
+\* scheduler ghost: keeps -simulate behaviours balanced between the three calls
+\* and never proposes a call that is no longer enabled
+Turns(n, c) == {"synth"} \cup (IF n < MaxAdmits THEN {"admit"} ELSE {}) \cup (IF c < MaxClock THEN {"expire"} ELSE {})
+               \cup (IF WithForge THEN {"forge"} ELSE {})
 
 Init ==
   /\ zid \in Zones /\ fam \in Families
   /\ phase = "zone" /\ sub = {} /\ q = [name |-> <<>>, type |-> "A"] /\ vs = {} /\ ag = {}
   /\ idx = <<>> /\ soaExp = 0 /\ cuts = <<>> /\ clock = 0 /\ nadm = 0
-  /\ turn \in (IF Part = "cache" THEN TurnSet ELSE {"admit"})
+  /\ turn \in (IF Part = "cache" THEN Turns(0, 0) ELSE {"admit"})
   /\ last = NoCall /\ synth = {}
 
 CacheUnchanged == UNCHANGED <<idx, soaExp, cuts, clock, nadm, turn, last, synth>>
@@ -406,27 +423,38 @@ Query(qq) ==
 
 Admit(G, qq, v, L) ==
   /\ Part = "cache" /\ turn = "admit" /\ nadm < MaxAdmits
-  /\ LET dummy == TRUE IN
-       /\ idx' = [r \in (DOMAIN idx) \cup G |-> IF r \in G THEN clock + L ELSE idx[r]]
-       /\ soaExp' = clock + L
-       /\ cuts' = IF v = "nxdomain"
-                  THEN [n \in (DOMAIN cuts) \cup {qq.name} |-> IF n = qq.name THEN clock + L ELSE cuts[n]]
-                  ELSE cuts
-       /\ last' = [op |-> "admit", g |-> G, q |-> qq, ttl |-> L, v |-> v]
-  /\ nadm' = nadm + 1 /\ synth' = {} /\ turn' \in TurnSet
+  \* RecordDenialProof: the bundle's RRsets (re)enter the zone's index, the SOA entry is replaced
+  /\ idx' = [r \in (DOMAIN idx) \cup G |-> IF r \in G THEN clock + L ELSE idx[r]]
+  /\ soaExp' = clock + L
+  \* RecordNXDomainCut: only for a name error, keyed by the exact denied name
+  /\ cuts' = IF v = "nxdomain"
+             THEN [n \in (DOMAIN cuts) \cup {qq.name} |-> IF n = qq.name THEN clock + L ELSE cuts[n]]
+             ELSE cuts
+  /\ last' = [op |-> "admit", g |-> G, q |-> qq, ttl |-> L, v |-> v]
+  /\ nadm' = nadm + 1 /\ synth' = {} /\ turn' \in Turns(nadm + 1, clock)
   /\ UNCHANGED <<zid, fam, phase, sub, q, vs, ag, clock>>
 
 Expire ==
   /\ Part = "cache" /\ turn = "expire" /\ clock < MaxClock
   /\ clock' = clock + 1
-  /\ last' = [op |-> "expire"] /\ synth' = {} /\ turn' \in TurnSet
+  /\ last' = [op |-> "expire"] /\ synth' = {} /\ turn' \in Turns(nadm, clock + 1)
   /\ UNCHANGED <<zid, fam, phase, sub, q, vs, ag, idx, soaExp, cuts, nadm>>
+
+\* A forged claim: genuine records G replayed under a question and an rcode of
+\* the attacker's choosing.  The sound gate never lets a false claim through, so
+\* the model state does not move; the conformance driver pushes the same claim
+\* through the REAL gate and admission path.
+Forge(G, qq, rc) ==
+  /\ Part = "cache" /\ turn = "forge"
+  /\ last' = [op |-> "forge", g |-> G, q |-> qq, rc |-> rc]
+  /\ synth' = {} /\ turn' \in Turns(nadm, clock)
+  /\ UNCHANGED <<zid, fam, phase, sub, q, vs, ag, idx, soaExp, cuts, clock, nadm>>
 
 Synthesise(qq) ==
   /\ Part = "cache" /\ turn = "synth"
   /\ synth' = SynthOf(idx, soaExp, cuts, clock, qq)
   /\ last' = [op |-> "synth", q |-> qq]
-  /\ turn' \in TurnSet
+  /\ turn' \in Turns(nadm, clock)
   /\ UNCHANGED <<zid, fam, phase, sub, q, vs, ag, idx, soaExp, cuts, clock, nadm>>
 
 Next ==
@@ -438,6 +466,8 @@ Next ==
   \/ /\ Part = "cache" /\ turn = "admit" /\ nadm < MaxAdmits
      /\ \E t \in AdmitTab[zid][fam], L \in {1, 2} : Admit(t[1], t[2], t[3], L)
   \/ Expire
+  \/ /\ Part = "cache" /\ turn = "forge"
+     /\ \E t \in ForgeTab[zid][fam] : Forge(t[1], t[2], t[3])
   \/ /\ Part = "cache" /\ turn = "synth"
      /\ \E qq \in Queries : Synthesise(qq)
 
@@ -455,7 +485,6 @@ TypeOK ==
 -----------------------------------------------------------------------------
 (* Case export for the conformance driver (invariants are evaluated once   *)
 (* per distinct state).                                                    *)
-NameStr(n) == n
 RecOut(r)  == [o |-> r.owner, s |-> r.src, p |-> r.par, nx |-> r.next, h |-> r.h, nh |-> r.nh,
                t |-> SetToSeq(r.types), oo |-> r.oo]
 ZoneOut ==
